@@ -240,6 +240,16 @@ pub fn bases(win: bool, tier: &str, seed: u64) -> Vec<Vec<u8>> {
     for _ in 0..(if t { 60 } else { 12 }) {
         v.push(long_random_path(&mut rng, win));
     }
+    // every byte value in the drive-letter position of a BARE `X:` base (what counts as a drive decides
+    // whether a separator is inserted)
+    if win {
+        for b in 0..=255u8 {
+            if t || !b.is_ascii_alphabetic() || b == b'C' || b == b'z' {
+                v.push(vec![b, b':']);
+                v.push(vec![b, b':', b'\\', b'n', b'.', b't']);
+            }
+        }
+    }
     // every byte value in the LAST position of a base (tests of "ends in a separator" must not be
     // fooled by a byte that only resembles one), after a name and directly after a separator
     for b in 0..=255u8 {
